@@ -28,12 +28,13 @@ const bindAddr = "127.0.12.1"
 
 type world struct {
 	s        *hx.Server
-	peers    []*hx.Peer // index = model session id; nil when the login got no LoginResp
-	peerRid  []int      // model run id index of the session
-	ridNames []string   // model run id index -> string
+	peers    []*hx.Peer  // index = model session id; nil when the login got no LoginResp
+	peerRid  []int       // model run id index of the session
+	ridNames []string    // model run id index -> string
 	stored   map[int]int // driver's own book-keeping: run id index -> session it believes stored
 	alive    []bool      // session believed to have an open control connection
 	ports    []int       // attempt -> remote port (0: not probed)
+	allPorts []int       // every port handed out in this case
 	items    []string
 	outs     []outRec
 	fails    []map[string]any
@@ -63,8 +64,8 @@ func (w *world) close() {
 	w.s.Close()
 }
 
-func (w *world) item(s string)  { w.items = append(w.items, s) }
-func (w *world) kind(k string)  { w.kinds[k]++ }
+func (w *world) item(s string) { w.items = append(w.items, s) }
+func (w *world) kind(k string) { w.kinds[k]++ }
 func (w *world) fail(key, what string) {
 	w.fails = append(w.fails, map[string]any{"key": key, "what": what, "case": w.caseName + ": " + strings.Join(w.items, "; ")})
 }
@@ -79,7 +80,7 @@ func (w *world) ridIndex(id string) int {
 	return len(w.ridNames) - 1
 }
 
-func pname(k int) string { return fmt.Sprintf("c12p%d", k) }
+func pname(k int) string   { return fmt.Sprintf("c12p%d", k) }
 func tagOf(sid int) string { return fmt.Sprintf("s%d", sid) }
 func sidOfTag(t string) int {
 	var n int
@@ -170,10 +171,10 @@ func errClass(e string) int {
 
 // loginAsync dials and sends the Login; the LoginResp is read by finishLogin.
 type pendingLogin struct {
-	sid   int
-	rid   string
-	conn  net.Conn
-	resp  chan loginRes
+	sid  int
+	rid  string
+	conn net.Conn
+	resp chan loginRes
 }
 type loginRes struct {
 	peer *hx.Peer
@@ -256,7 +257,21 @@ func (w *world) newPort(reuseAtt int) (att, port int, runok bool) {
 		w.ports = append(w.ports, 0)
 		return att, w.ports[reuseAtt], false
 	}
-	port = hx.FreePort(bindAddr)
+	// a port never used by an earlier attempt of this case (the OS may hand a freed port out again,
+	// which would make the old attempt look bound)
+	for try := 0; try < 50; try++ {
+		port = hx.FreePort(bindAddr)
+		dup := false
+		for _, q := range w.allPorts {
+			if q == port {
+				dup = true
+			}
+		}
+		if !dup && port != 0 {
+			break
+		}
+	}
+	w.allPorts = append(w.allPorts, port)
 	w.ports = append(w.ports, port)
 	return att, port, true
 }
@@ -441,9 +456,9 @@ func runSessions(cfg *hx.RunCfg) error {
 	kinds := map[string]int{}
 	distinct := map[string]bool{}
 	var samples []string
-	nSched := len(schedules)
+	nSched := 4 * len(schedules)
 	if cfg.Tier != "quick" {
-		nSched = 3 * len(schedules)
+		nSched = 20 * len(schedules)
 	}
 	total := cfg.N
 	for i := 0; i < total; i++ {
